@@ -1,5 +1,6 @@
 use crate::engine::Property;
 
+pub mod c01;
 pub mod c02;
 pub mod c05;
 pub mod c06;
@@ -14,6 +15,7 @@ pub mod c14;
 
 pub fn all() -> Vec<&'static dyn Property> {
     vec![
+        &c01::C01,
         &c02::C02,
         &c05::C05,
         &c06::C06,
